@@ -29,6 +29,10 @@ pub enum Op {
     /// told to stop (SIGINT) at once: the clean shutdown completes the pending snapshot (itself, or by
     /// waiting for the snapshot thread) before the process exits; then the node is started again
     CleanRestart { db: usize, reclaim: bool },
+    /// a session registers as the arbiter of the database and stays until the next restart: on an
+    /// arbiter-strategy database a stale versioned write is then put aside as a conflict (the key keeps its value
+    /// and gets the "in conflict" version, a `$conflicts_...` record is written) -- state a snapshot must keep
+    Arbiter { db: usize },
 }
 
 #[derive(Clone, Debug, Serialize, Deserialize)]
@@ -78,6 +82,33 @@ pub fn gen_with(rng: &mut Rng, long: bool, clean_restarts: bool) -> Program {
             _ => Op::Remove { db, key },
         };
         ops.push(op);
+    }
+    // databases with the arbiter strategy: in half of the histories an arbiter registers early, and some versioned
+    // writes are stale (conflicts that are put aside, before and after snapshots)
+    for (dbi, strat) in dbs.iter().enumerate() {
+        if strat == "arbiter" && rng.chance(1, 2) {
+            for op in ops.iter_mut() {
+                if let Op::SetSafe { db, delta, .. } = op {
+                    if *db == dbi && rng.chance(2, 3) {
+                        *delta = -1;
+                    }
+                }
+            }
+            let at = rng.below(ops.len().min(3) as u64 + 1) as usize;
+            ops.insert(at, Op::Arbiter { db: dbi });
+            let key = KEYS[rng.below(nkeys as u64) as usize].to_string();
+            let at2 = rng.range(at as u64 + 1, ops.len() as u64) as usize;
+            let conflict = vec![
+                Op::Set { db: dbi, key: key.clone(), val: gen_value(rng, &mut uniq) },
+                Op::Snapshot { db: dbi, reclaim: false },
+                Op::SetSafe { db: dbi, key: key.clone(), delta: -1, val: gen_value(rng, &mut uniq) },
+            ];
+            if rng.chance(1, 2) {
+                for (j, m) in conflict.into_iter().enumerate() {
+                    ops.insert(at2 + j, m);
+                }
+            }
+        }
     }
     // a third of the histories contain the motif "persist, restart, change ONE key of what was loaded,
     // incremental snapshot, restart": state that came from the loader must behave like state persisted by
@@ -153,6 +184,8 @@ pub fn execute(prog: Program) -> Outcome {
     let mut hist: BTreeMap<(usize, String), Vec<&'static str>> = BTreeMap::new();
     let mut exists: Vec<bool> = vec![true; ndbs];
     let mut cur_db: Option<usize> = None;
+    // arbiter sessions of the current process
+    let mut arbiters: Vec<Session> = Vec::new();
     macro_rules! select {
         ($db:expr) => {
             if cur_db != Some($db) {
@@ -220,6 +253,15 @@ pub fn execute(prog: Program) -> Outcome {
                     hist.entry((*db, key.clone())).or_default().push("inc");
                 }
             }
+            Op::Arbiter { db } => {
+                if !exists[*db] {
+                    continue;
+                }
+                let mut a = Session::admin(&dbs);
+                a.exec(&format!("use-db {} tok{}", DBNAMES[*db], db));
+                a.exec("arbiter");
+                arbiters.push(a);
+            }
             Op::SnapRace { db, reclaim } => {
                 if !exists[*db] {
                     continue;
@@ -260,7 +302,8 @@ pub fn execute(prog: Program) -> Outcome {
                 let lv = live_view(&d);
                 // consistency of the in-memory state with the plain map at snapshot time (C01's subject,
                 // repeated here so that a restart mismatch can be attributed to the disk path)
-                let lv_vals: BTreeMap<String, String> = lv.iter().map(|(k, v)| (k.clone(), v.0.clone())).collect();
+                // (conflict records of an arbiter database are the implementation's own keys, not the map's)
+                let lv_vals: BTreeMap<String, String> = lv.iter().filter(|(k, _)| !k.starts_with("$conflicts")).map(|(k, v)| (k.clone(), v.0.clone())).collect();
                 if lv_vals != model[*db] {
                     out.violations.push(Violation::new(
                         "memory-diverged",
@@ -332,6 +375,8 @@ pub fn execute(prog: Program) -> Outcome {
                 };
                 admin = Session::admin(&dbs);
                 cur_db = None;
+                // (sessions of the previous process)
+                arbiters.clear();
                 out.restarts_checked += 1;
                 for db in 0..ndbs {
                     let name = DBNAMES[db];
